@@ -242,6 +242,7 @@ PROPS["C08"] = dict(
         R("C08.parsers", "crash", "TestC08Parsers", 3000, 200000),
         R("C08.p2pke_session_channel", "crash", "TestC08Session", 500, 25000),
         R("C08.p2pkeswarm_multiswarm_dht", "crash", "TestC08SwarmsAndDHT", 500, 25000),
+        R("C08.quic_raw_peer", "crash", "TestC08QuicRawPeer", 200, 6000, quick=dict(shards=2, timeout=600)),
         F("C08.fuzz_session_deliver", "crash", "FuzzSessionDeliver"),
         F("C08.fuzz_frag_packet", "crash", "FuzzFragPacket"),
         F("C08.fuzz_mux_packet", "crash", "FuzzMuxPacket"),
